@@ -11,7 +11,8 @@ Transcription, line by line:
   * `HashMap::insert`           ↦ `insertKV` (replace in place or append)
   * `HashMap::remove`           ↦ `List.filter (·.1 != k)`
 `ObjectCache::{get,put,clear,stats}` each take the lock for the whole body, so each is one
-atomic `Impl.step`.  Import-free.
+atomic `Impl.step`; `LruCache::is_empty` and `ObjectCache::stats` are read-only steps;
+`MemoryManager::new(..).cache()` is `managerCache`.  Import-free.
 -/
 namespace OxiVerif.C29
 
@@ -20,6 +21,8 @@ inductive Op where
   | put (k v : Nat)
   | clear
   | len
+  | isEmpty                    -- `LruCache::is_empty`
+  | stats                      -- `ObjectCache::stats` (size, capacity)
   deriving Repr, DecidableEq
 
 inductive Out where
@@ -27,6 +30,8 @@ inductive Out where
   | val (v : Nat)
   | unit
   | size (n : Nat)
+  | flag (b : Bool)
+  | stats (size cap : Nat)
   deriving Repr, DecidableEq
 
 def lookup (k : Nat) : List (Nat × Nat) → Option Nat
@@ -72,6 +77,8 @@ def Impl.step (s : Impl) : Op → Impl × Out
   | .put k v => (s.put k v, .unit)
   | .clear => ({ s with map := [], order := [] }, .unit)
   | .len => (s, .size s.map.length)
+  | .isEmpty => (s, .flag s.map.isEmpty)
+  | .stats => (s, .stats s.map.length s.cap)
 
 def Impl.run (s : Impl) : List Op → List Out
   | [] => []
@@ -100,6 +107,8 @@ def Spec.step (s : Spec) : Op → Spec × Out
     else ({ s with items := ((k, v) :: removeK k s.items).take s.cap }, .unit)
   | .clear => ({ s with items := [] }, .unit)
   | .len => (s, .size s.items.length)
+  | .isEmpty => (s, .flag s.items.isEmpty)
+  | .stats => (s, .stats s.items.length s.cap)
 
 def Spec.run (s : Spec) : List Op → List Out
   | [] => []
@@ -113,6 +122,21 @@ def Spec.final (s : Spec) : List Op → Spec
 def abs (s : Impl) : Spec :=
   { cap := s.cap,
     items := s.order.filterMap (fun k => (lookup k s.map).map (fun v => (k, v))) }
+
+/-! ### What a lookup may return: the value most recently stored (history-level spec) -/
+
+/-- the last value stored under each key since the last `clear` (evictions ignored) -/
+def track (f : Nat → Option Nat) : Op → (Nat → Option Nat)
+  | .put k v => fun k' => if k' = k then some v else f k'
+  | .clear => fun _ => Option.none
+  | _ => f
+
+def lastStored (ops : List Op) : Nat → Option Nat := ops.foldl track (fun _ => Option.none)
+
+/-- `MemoryManager::new(options).cache()`: no cache at all for `cache_size = 0`, otherwise an
+`ObjectCache` of that capacity -/
+def managerCache (cacheSize : Nat) : Option Impl :=
+  if cacheSize > 0 then some (Impl.new cacheSize) else Option.none
 
 /-! ### Linearisation search used only by the correspondence run (concurrent histories). -/
 
